@@ -1,0 +1,62 @@
+//! Verification hook (feature `zvt_verif`): in-memory connector.
+use std::cell::RefCell;
+use std::future::Future;
+use std::io;
+use std::net::SocketAddrV4;
+use std::pin::Pin;
+use std::sync::Arc;
+use std::task::{Context, Poll};
+use tokio::io::{AsyncRead, AsyncWrite, ReadBuf};
+
+pub trait Duplex: AsyncRead + AsyncWrite + Send + Unpin {}
+impl<T: AsyncRead + AsyncWrite + Send + Unpin> Duplex for T {}
+
+pub struct MemStream(pub Box<dyn Duplex>);
+
+pub type ConnectFuture = Pin<Box<dyn Future<Output = io::Result<MemStream>> + Send>>;
+pub type Connector = Arc<dyn Fn(SocketAddrV4) -> ConnectFuture + Send + Sync>;
+
+thread_local! {
+    static CONNECTOR: RefCell<Option<Connector>> = RefCell::new(None);
+}
+
+pub fn set_connector(c: Option<Connector>) {
+    CONNECTOR.with(|slot| *slot.borrow_mut() = c);
+}
+
+impl MemStream {
+    pub async fn connect(addr: SocketAddrV4) -> io::Result<Self> {
+        let c = CONNECTOR.with(|slot| slot.borrow().clone());
+        match c {
+            Some(c) => c(addr).await,
+            None => Err(io::Error::new(io::ErrorKind::ConnectionRefused, "no connector")),
+        }
+    }
+}
+
+impl AsyncRead for MemStream {
+    fn poll_read(mut self: Pin<&mut Self>, cx: &mut Context<'_>, buf: &mut ReadBuf<'_>) -> Poll<io::Result<()>> {
+        Pin::new(&mut *self.0).poll_read(cx, buf)
+    }
+}
+impl AsyncWrite for MemStream {
+    fn poll_write(mut self: Pin<&mut Self>, cx: &mut Context<'_>, buf: &[u8]) -> Poll<io::Result<usize>> {
+        Pin::new(&mut *self.0).poll_write(cx, buf)
+    }
+    fn poll_flush(mut self: Pin<&mut Self>, cx: &mut Context<'_>) -> Poll<io::Result<()>> {
+        Pin::new(&mut *self.0).poll_flush(cx)
+    }
+    fn poll_shutdown(mut self: Pin<&mut Self>, cx: &mut Context<'_>) -> Poll<io::Result<()>> {
+        Pin::new(&mut *self.0).poll_shutdown(cx)
+    }
+}
+
+/// Shim that shadows the `tokio` crate name inside `stream.rs`.
+pub mod shim {
+    pub use ::tokio::pin;
+    pub use ::tokio::time;
+    pub mod net {
+        pub use super::super::MemStream as TcpStream;
+        pub use ::tokio::net::ToSocketAddrs;
+    }
+}
